@@ -247,6 +247,26 @@ PROPS['C15'] = dict(
     explanation='Spec = a location-free effect per operation; model adds the wire table and the transmissibility of each built-in message (schema present + C12 round-trip); theorem: observe = effect for every op x target x forwarder location; as-found witness for remote Kill / Watch.',
 )
 
+PROPS['C18'] = dict(
+    modules=['Vivid.Props.C18'],
+    gens=[],
+    engines=[dict(name='gossip', must_hit=['scenario:join', 'scenario:idle-long', 'scenario:crash', 'scenario:restart', 'scenario:seed-crash', 'scenario:seed-restart', 'scenario:two-seeds',
+                                           'scenario:late-crash-messages', 'scenario:partition', 'scenario:random', 'rand:crash', 'rand:start', 'rand:recv']),
+             dict(name='gossiprt', nomodel=True, must_hit=['scenario:idle', 'scenario:crash', 'scenario:restart', 'scenario:seedcrash', 'scenario:seedrestart'])],
+    rule='gossip: real cluster.NodeActor instances (2..7 nodes) behind a fake ActorContext; the harness is the network (a bag of captured gossip messages: any may be delivered, late, twice or never), the timers (ticks are ops, any phase) and the clock. '
+         'Directed scenarios (join orders, one or two seeds incl. self-seeded islands, long idle, crash, restart on the same address, seed crash / restart, messages of a crashed node arriving late, partitions longer than the timeout then healed) and seeded '
+         'random fault phases (start / crash / restart / retry / tick / fd / clock / arbitrary delivery), each followed by a settle phase of full rounds. After every op the node\'s members (id, address, generation, clock, timestamp, status, LastSeen) '
+         'are compared with the model; at the end: every running node lists exactly the running incarnations, all Up, same leader (monitor CONVERGENCE); every periodic round addresses every member (monitor HEARTBEAT). '
+         'gossiprt (monitor only): real systems over loopback remoting with short timers (3-7 nodes): idle, crash, restart, seed crash, seed restart: exact and stable membership, no membership event in the last third of the run, one leader.',
+    trusted_base=COMMON_TRUST + ['the fake ActorContext (Tell captured into the bag, Ask routed synchronously to the one seed the harness lets answer, scheduler and event stream stubbed)', 'the clock hook cluster.VerifNow (wallNow) and VerifSetBirth',
+                                 'wall-clock sampling in gossiprt'],
+    assumptions=['configuration of the engine: one datacenter, SuspectConfirmDuration 0, fan-out >= cluster size, no join secrets / rate limits; version vectors (only used to suppress change-triggered broadcasts) are not modelled',
+                 'two incarnations of one node never share a birth timestamp',
+                 'partial: the positive half of convergence (running nodes end with equal views under every fair schedule) is observed over the explored schedules, not proved; proved: heartbeat refresh, failure detection is exact and quiet on fresh views, '
+                 'no re-adoption of stale hearsay, a crashed node stays absent along every execution, leader is a function of the Up-address set'],
+    explanation='Handler-level model of handleGossip / failure detection / join / incarnation supersession, lock-step with the real NodeActor; network LTS with arbitrary delivery: invariant Gone(c,B) preserved by every step, hence a crashed incarnation never returns to a view that dropped it after B+T.',
+)
+
 # Text of level_claimed per property (MANIFEST); NOT_APPLICABLE: properties not claimed, with reason.
 LEVEL_TEXT = {}
 NOT_APPLICABLE = {}
